@@ -108,7 +108,7 @@ def main():
         "setup_cmd": "./check --setup",
         "hooks": {
             "guard": "cfg(recmo_uint_verif)",
-            "enable": "RUSTFLAGS --cfg recmo_uint_verif via /verif/harness/.cargo/config.toml; the checks of the six properties whose code carries hooks (C03, C10, C11, C12, C13, C14) are run a second time against a build without the flag (target/plain), so code that only exists in the uninstrumented configuration is exercised too; the fuzz targets build without the flag",
+            "enable": "RUSTFLAGS --cfg recmo_uint_verif via /verif/harness/.cargo/config.toml; the checks of the six properties whose code carries hooks (C03, C10, C11, C12, C13, C14) are run a second time against a build without the flag and without debug assertions (target/plain, profile fast), so code that only exists in the uninstrumented configuration is exercised too; the fuzz targets build without the flag",
             "baseline_off_cmd": "cd /repo && cargo test --workspace --no-fail-fast --offline",
             "source_commits": ["47fc03b", "ce99d53", "49e90c2"],
             "add_only": True,
